@@ -207,8 +207,10 @@ def canonicalise_roles(load):
         return got[0]
 
     def name_of(e, what):
+        last_name = None
         for _ in range(4):
             if isinstance(e, ast.Name) and isinstance(il.single(e.id), (ast.Call, ast.Name)):
+                last_name = e
                 e = il.single(e.id)         # a temporary holding the argument
             elif isinstance(e, ast.Call) and norm_text(e.func) in ('np.array', 'np.asarray') and e.args:
                 e = e.args[0]
@@ -216,6 +218,8 @@ def canonicalise_roles(load):
                 break
         if isinstance(e, ast.Subscript):
             e = e.value
+        if not isinstance(e, ast.Name) and last_name is not None:
+            e = last_name                   # built by one expression (e.g. a stacked table): the local itself plays the role
         if not isinstance(e, ast.Name):
             raise AnalysisError('loadArmFromURDF: %s is not a local variable (%s)' % (what, norm_text(e)[:40]))
         return e.id
@@ -485,8 +489,12 @@ def check(model, rep):
     cnt_aug = [x for x in (cnt_ifs[0].body if cnt_ifs else []) if isinstance(x, ast.AugAssign)]
     ok = len(cnt_ifs) == 1 and src(cnt_ifs[0].test).replace(' ', '') == "temp_element.type=='joint'andtemp_element.sub_type!='fixed'" and \
         len(cnt_aug) == 1 and isinstance(cnt_aug[0].op, ast.Add) \
-        and isinstance(cnt_aug[0].target, ast.Name) and src(cnt_aug[0].value) == '1' \
-        and all(norm_text(d) == 'np.zeros((3,%s))' % cnt_aug[0].target.id for t_ in ('joint_axes', 'joint_homes') for d in il_load.defs(t_))
+        and isinstance(cnt_aug[0].target, ast.Name) and src(cnt_aug[0].value) == '1'
+    if ok:
+        sized = {t_: [norm_text(d) for d in il_load.defs(t_)] for t_ in ('joint_axes', 'joint_homes')}
+        rep.ob('R13.3', load, 'per-joint tables allocated with one column per counted joint',
+               all(d == 'np.zeros((3,%s))' % cnt_aug[0].target.id for ds in sized.values() for d in ds),
+               'the per-joint tables are not 3 x <number of moving joints> zero tables filled by the walk: %s' % sized)
     first_if = [n for n in walk.body if isinstance(n, ast.If)]
     ok2 = bool(first_if) and src(first_if[0].test).replace(' ', '') == "temp_element.type=='link'ortemp_element.sub_type=='fixed'" and \
         isinstance(first_if[0].body[-1], ast.Continue)
